@@ -612,7 +612,7 @@ def gen_request(r, scratch, idx, kind=None):
             'T7(k: a, m? ArgMax= l -> a) distinct :- D(a:, b:), l == [a, a + 1];\n'
             'Inner(x) = r.%s :- r == {%s: x, %s: 1};\n' % (f[6], f[6], f[7]) +
             'T8(Inner(a)) :- D(a:, b:);\n'
-            'T9(a, FlagValue("no_such_flag")) :- D(a:);\n'
+            'T9(Inner(b), FlagValue("no_such_flag")) :- D(a:, b:);\n'      # Inner at another argument type
             'T5(x: r.%s, y: s) :- T1(r:), T3(k: x0, s:), x0 == r.%s;\n' % (f[0], f[0]) +
             'T6(t: {%s: a, %s: {%s: b}}) :- D(a:, b:);\n' % (f[6], f[7], f[0]))
     preds = ['T8', 'T9'] + r.sample(['T1', 'T2', 'T3', 'T4', 'T5', 'T6', 'T7'], 3)
